@@ -621,16 +621,20 @@ SC_SELECTORS = {"setUp()": "0a9254e4", "check_f1()": "c0a4d64d", "check_f2()": "
 SC_TOKEN = {2: 2, 5: 5, 7: 7}  # default, halmos.toml, command line (sites: 100 + site id)
 
 
-def config_scope_artifacts(sites: set) -> dict:
+SC_FLAG = "no_status"  # the boolean option of the scoping scenarios
+
+
+def config_scope_artifacts(sites: set, flag_c1: bool = False) -> dict:
     """Hand-built forge artifacts for contracts C1, C2 of one source file, `@custom:halmos --loop N`
     placed on the given sites (10c: contract c, 10c+f+1: function f of contract c)."""
     nodes = []
     for c in (1, 2):
         node = {"nodeType": "ContractDefinition", "name": f"C{c}", "contractKind": "contract", "abstract": False,
                 "nodes": []}
-        if 10 * c in sites:
+        words = ([f"--loop {100 + 10 * c}"] if 10 * c in sites else []) + (["--no-status"] if flag_c1 and c == 1 else [])
+        if words:
             node["documentation"] = {"id": 7 + c, "nodeType": "StructuredDocumentation",
-                                     "text": f"@custom:halmos --loop {100 + 10 * c}"}
+                                     "text": "@custom:halmos " + " ".join(words)}
         nodes.append(node)
     arts = {}
     for c in (1, 2):
@@ -660,13 +664,13 @@ SC_RUNTIME = bytes([0x00])
 SC_CREATION = bytes([0x60, 0x01, 0x60, 0x0C, 0x60, 0x00, 0x39, 0x60, 0x01, 0x60, 0x00, 0xF3, 0x00])
 
 
-def config_scope_base(root: Path, file: bool, cli: bool):
+def config_scope_base(root: Path, file: bool, cli: bool, flag: bool = False):
     """default -> halmos.toml -> command line, through halmos' own load_config."""
-    d = root / f"proj-{int(file)}{int(cli)}"
+    d = root / f"proj-{int(file)}{int(cli)}{int(flag)}"
     d.mkdir(parents=True, exist_ok=True)
     toml_path = d / "halmos.toml"
     if file:
-        toml_path.write_text("[global]\nloop = 5\n")
+        toml_path.write_text("[global]\nloop = 5\n" + ("no-status = true\n" if flag else ""))
     elif toml_path.exists():
         toml_path.unlink()
     argv = ["--root", str(d)] + (["--loop", "7"] if cli else [])
@@ -698,11 +702,13 @@ def config_replay_scope(recs: list, root: Path, deep_every: int = 0) -> Outcome:
     with config_quiet():
         for file in (False, True):
             for cli in (False, True):
-                bases[(file, cli)] = config_scope_base(root, file, cli)
+                for flag in (False, True) if file else (False,):
+                    bases[(file, cli, flag)] = config_scope_base(root, file, cli, flag)
         for idx, rec in enumerate(recs):
             sites = set(rec["sites"])
-            args, projdir, argv = bases[(rec["file"], rec["cli"])]
-            arts = config_scope_artifacts(sites)
+            flag_at = rec.get("flagAt", 0)
+            args, projdir, argv = bases[(rec["file"], rec["cli"], flag_at == 2)]
+            arts = config_scope_artifacts(sites, flag_c1=flag_at == 3)
             observed = {}
             for c in (1, 2):
                 cj = arts[f"C{c}"]
@@ -711,7 +717,8 @@ def config_replay_scope(recs: list, root: Path, deep_every: int = 0) -> Outcome:
                 for f, sig in enumerate(SC_FUNS):
                     fargs = hmain.with_devdoc(cargs, sig, cj)
                     v, s = fargs.value_with_source("loop")
-                    observed[(c, f)] = (fargs.loop, v, int(s))
+                    fv, fs = fargs.value_with_source(SC_FLAG)
+                    observed[(c, f)] = (fargs.loop, v, int(s), getattr(fargs, SC_FLAG), fv, int(fs))
             config_scope_compare(out, rec, observed, "with_natspec/with_devdoc")
             out.cases += 1
             if sites:
@@ -726,11 +733,22 @@ def config_replay_scope(recs: list, root: Path, deep_every: int = 0) -> Outcome:
 def config_scope_compare(out: Outcome, rec, observed: dict, level: str):
     for c in (1, 2):
         for f, sig in enumerate(SC_FUNS):
-            tok, src = rec["exp"][c - 1][f]
+            tok, src = rec["exp"][c - 1][f][:2]
             got = observed.get((c, f))
             if got is None:
                 raise MachineryError(f"{level}: no configuration observed for C{c}.{sig}")
-            attr, v, s = got
+            attr, v, s = got[:3]
+            if len(rec["exp"][c - 1][f]) == 4 and len(got) == 6:
+                wflag, wsrc = rec["exp"][c - 1][f][2:]
+                fattr, fv, fs = got[3:]
+                if bool(fattr) != bool(wflag) or bool(fv) != bool(wflag) or fs != wsrc:
+                    out.miss(f"scope-flag:{'F' if rec['file'] else '-'}{'C' if rec['cli'] else '-'}:at{rec.get('flagAt')}:C{c}.{sig}",
+                             f"{level}: `no-status` switched on {'in halmos.toml' if rec.get('flagAt') == 2 else 'in the annotation of C1' if rec.get('flagAt') == 3 else 'nowhere'}, "
+                             f"annotations (--loop) on sites {sorted(rec['sites'])}, cli={rec['cli']}: C{c}.{sig} must run with no_status={bool(wflag)} "
+                             f"(from {SRC_NAME.get(wsrc, wsrc)}), halmos uses {fattr} (value_with_source {fv}, {SRC_NAME.get(fs, fs)})",
+                             {"scenario": rec, "contract": f"C{c}", "function": sig, "level": level, "expected": [bool(wflag), wsrc], "observed": [fattr, fv, fs]})
+                else:
+                    out.counts["function_flags_agreed"] += 1
             if attr != tok or v != tok or (s is not None and s != src):
                 key = (f"scope:{'F' if rec['file'] else '-'}{'C' if rec['cli'] else '-'}:"
                        f"{','.join(map(str, sorted(rec['sites'])))}:C{c}.{sig}")
@@ -769,7 +787,8 @@ def config_scope_run_contracts(argv: list, projdir: Path, arts: dict) -> dict:
 
     def record(ctx, f):
         v, s = ctx.args.value_with_source("loop")
-        observed[(int(ctx.contract_ctx.name[1:]), f)] = (ctx.args.loop, v, int(s))
+        fv, fs = ctx.args.value_with_source(SC_FLAG)
+        observed[(int(ctx.contract_ctx.name[1:]), f)] = (ctx.args.loop, v, int(s), getattr(ctx.args, SC_FLAG), fv, int(fs))
 
     def spy_setup(ctx):
         record(ctx, 0)
